@@ -24,6 +24,13 @@ import C06 as base
 
 VARIANT = 0        # 0 = the library behaves like /repo HEAD; bits 2,3,4 = that former defect is back; bit 5 = notes/fix_C18_3.diff present
 WRAPS = ("select", "gettimeofday", "write")
+
+
+def clip_cflags():
+    """harness/vdrv_clip.c #includes harness/vdrv_input.c, which vlib's build cache does not see: make it part of the key"""
+    import hashlib
+    h = hashlib.sha1(open(os.path.join(vlib.VERIF, "harness", "vdrv_input.c"), "rb").read()).hexdigest()[:16]
+    return ("-DVDRV_INPUT_SHA=%s" % h,)
 PID = "C18"
 PROP_FILE = "Props/Properties_C18.v"
 EXTRACT = "Extract/Extract_C18.vo"
@@ -39,6 +46,16 @@ fmt = base.fmt_text
 def ext_limit():
     """limit on the (compressed) extended message: 1 MiB, plus 1 KiB with the proposed notes/fix_C18_3.diff"""
     return LIMIT + (1024 if VARIANT & 32 else 0)
+
+
+def rec_limit():
+    """largest size field of one extended-clipboard record the receivers accept: regenerated from the source under test"""
+    import re
+    try:
+        txt = open(os.path.join(vlib.COQ, "Gen", "Consts_C18.v")).read()
+        return int(re.search(r"c18_ext_size_limit : Z := \((\d+)\)", txt).group(1))
+    except Exception:
+        return LIMIT
 
 
 def hx(b):
@@ -157,6 +174,17 @@ class Builder:
         self.add("rc_connect %d %d" % (cid, 1 if utf8 else 0), ev=[])
         return c
 
+    def rc_update(self, cid):
+        """the LibVNCClient requests, receives and digests one full framebuffer update (with LibVNCClient's default
+        encodings this carries the SupportedMessages / SupportedEncodings / ServerIdentity pseudo-rectangles)"""
+        c = self.conns[cid]
+        if not (c.is_rc and c.alive):
+            return
+        c.updating = True
+        self.add("rc_fur %d" % cid, ev=[])
+        self.add("p", ev=[])
+        self.rc_pump(cid)
+
     def rc_sched(self, cid, sched=None):
         """what the kernel does on the client's next write() calls: short writes and EAGAIN in any pattern"""
         c = self.conns[cid]
@@ -179,6 +207,11 @@ class Builder:
             c.pending_caps = False
         ev, c.pending_rc = c.pending_rc, []
         self.add("rc_pump %d" % cid, ev=ev)
+        if getattr(c, "updating", False):
+            # a client that asks for framebuffer updates answers every update it digests with an incremental request;
+            # how many updates the server produced is not this property's business: let the server read them all
+            for _ in range(3):
+                self.add("p", ev=[])
 
     # ---- client puts text
     def put_classic(self, cid, text, frag=True):
@@ -250,6 +283,9 @@ class Builder:
             self.send_ext(cid, payload, [], closes=True)
             return
         ev = [] if c.vo else ["U:%d:%d:%s:0" % (cid, len(data), fmt(data))]
+        if len(data) > rec_limit() and len(text) <= LIMIT:
+            # a text of exactly 2^20 bytes: with its terminating NUL the record is 2^20+1 bytes
+            self.known_bad = "exactlimit"
         self.send_ext(cid, payload, ev)
 
     # ---- the application publishes
@@ -281,8 +317,11 @@ class Builder:
                     self.zdef("cmp", content, z)
                     self.zdef("inf", z, content, "E")
                     if c.is_rc:
-                        if 4 + len(z) <= ext_limit() and len(data) <= LIMIT:
+                        if 4 + len(z) <= ext_limit() and len(data) <= rec_limit():
                             c.pending_rc.append("GU:%d:%d:%s:0" % (c.id, len(data), fmt(data)))
+                        elif len(data) > rec_limit() and 4 + len(z) <= ext_limit():
+                            c.pending_rc.append("GU:%d:%d:%s:0" % (c.id, len(data), fmt(data)))    # what the property demands
+                            self.known_bad = "exactlimit"
                         else:
                             c.pending_rc.append("GD:%d" % c.id)
                             self.known_bad = "incompressible"
@@ -515,10 +554,16 @@ def case_realclient(rng):
         else:
             b.peer(i, ext=rng.random() < 0.5)
         ids.append(i)
+    for i in ids:
+        if b.conns[i].is_rc and rng.random() < 0.5:
+            for _ in range(rng.randint(1, 3)):
+                b.rc_update(i)           # the client has digested N >= 1 framebuffer updates before it uses the clipboard
     for _ in range(rng.randint(3, 10)):
         cid = rng.choice(ids)
         c = b.conns[cid]
         r = rng.random()
+        if c.is_rc and rng.random() < 0.1:
+            b.rc_update(cid)
         if r < 0.5 and c.is_rc and rng.random() < 0.6:
             b.rc_sched(cid)              # the socket takes the next message in dribs and drabs
         if r < 0.25:
@@ -574,6 +619,16 @@ def case_limits(rng, which):
         b.rc(0, 1); b.rc_pump(0)
         b.pubu(rnd_text(rng, LIMIT - 1, "rand"), b"fb")
         b.rc_pump(0)
+    elif which == "utf8-exact-1MiB-c2s":
+        b.peer(0, ext=True)
+        b.peer(1, ext=True)
+        b.provide(0, rnd_text(rng, LIMIT - 1, "zero"), stream="finish")      # 2^20-1 bytes + NUL: accepted
+        b.provide(0, rnd_text(rng, LIMIT, "ascii"), stream="sync")           # exactly 2^20 bytes (+ NUL)
+    elif which == "utf8-exact-1MiB-s2c":
+        b.rc(0, 1); b.rc_pump(0)
+        b.peer(1, ext=True)
+        b.pubu(rnd_text(rng, LIMIT, "ascii"), b"fb")                         # exactly 2^20 bytes
+        b.rc_pump(0)
     elif which == "null-fallback":
         b.peer(0)
         b.peer(1, ext=True)
@@ -598,7 +653,7 @@ def gen_cases(ctx):
     for _ in range(30 * mult):
         cases.append(case_ext_viewonly(rng))
     for w in ["classic-1MiB-s2c", "classic-1MiB-c2s", "utf8-big-compressible", "utf8-size-limit",
-              "utf8-incompressible-c2s", "utf8-incompressible-s2c", "null-fallback"]:
+              "utf8-incompressible-c2s", "utf8-incompressible-s2c", "utf8-exact-1MiB-c2s", "utf8-exact-1MiB-s2c", "null-fallback"]:
         for _ in range(1 if quick else 3):
             cases.append(case_limits(rng, w))
     return cases
@@ -608,7 +663,7 @@ def gen_cases(ctx):
 def build(ctx):
     os.makedirs(os.path.join(vlib.BUILD, "ocaml", PID), exist_ok=True)
     os.makedirs(os.path.join(vlib.VERIF, "build", "ocaml", PID), exist_ok=True)
-    cexe = vlib.build_harness("vdrv_clip", ["vdrv_clip.c"], wraps=WRAPS, client=True)
+    cexe = vlib.build_harness("vdrv_clip", ["vdrv_clip.c"], wraps=WRAPS, client=True, extra_cflags=clip_cflags())
     proof_ok = vlib.prove(ctx, PROP_FILE, [EXTRACT])
     src = os.path.join(vlib.VERIF, "build", "ocaml", PID)
     dst = os.path.join(vlib.BUILD, "ocaml", PID)
@@ -672,8 +727,19 @@ C_ENV = {"ASAN_OPTIONS": "detect_leaks=0:abort_on_error=0:allocator_may_return_n
 
 
 def run_both(cexe, mexe, text):
+    """The implementation runs first: how many FramebufferUpdate messages a LibVNCClient digests in a pump is decided by the
+    server's update machinery (C02/C03's subject, not part of this model); the model is told the number (GF events of the
+    implementation's `rc_pump` lines become `rc_pump <id> <n>`), like it is told zlib's answers."""
     r1 = vlib.run_driver(cexe, text, timeout=2400, env=C_ENV)
-    r2 = vlib.run_driver(mexe, text, timeout=2400, unlimited_stack=True)
+    sl, ol = text.split("\n"), r1[1].split("\n")
+    out = []
+    for i, l in enumerate(sl):
+        if l.startswith("rc_pump ") and i < len(ol) and ol[i].startswith("rc_pump ") and len(l.split()) == 2:
+            n = ol[i].split(" cl=[")[0].count("GF:")
+            if n:
+                l = l + " %d" % n
+        out.append(l)
+    r2 = vlib.run_driver(mexe, "\n".join(out), timeout=2400, unlimited_stack=True)
     return r1, r2
 
 
@@ -713,12 +779,15 @@ def judge(b, impl_lines):
                         "the stream): %s" % (f[2], f[-1], e)), {"kind": "shortstream", "msg": "ClientCutText-ext-provide"}
             if f[0] in ("UX", "GX"):
                 return "callback with unpredictable arguments: %s" % e, {"kind": "undef"}
+        p["ev"] = [e for e in p["ev"] if not e.startswith("GF:")]     # update traffic is not this property's subject
         if exp["ev"] is not None and p["ev"] != exp["ev"]:
             feat = {"kind": "text", "line": line.split()[0]}
             if b.known_bad == "incompressible" and (not p["ev"] or any(x.startswith("GD") for x in p["ev"])):
                 feat = {"kind": "incompressible", "msg": "ext-provide", "size": "near-1MiB"}
             if b.known_bad == "shortstream":
                 feat = {"kind": "shortstream", "msg": "ClientCutText-ext-provide"}
+            if b.known_bad == "exactlimit" and (not p["ev"] or any(x.startswith("GD") for x in p["ev"])):
+                feat = {"kind": "exactlimit", "msg": "ext-provide", "text_bytes": LIMIT}
             return ("after '%s': callbacks %s, the clipboard property requires %s" % (line[:80], p["ev"], exp["ev"])), feat
         if exp["out"] is not None and p["out"] != exp["out"]:
             return ("after '%s': the server wrote %s, the clipboard property requires %s" % (line[:80], p["out"], exp["out"])), \
@@ -881,7 +950,7 @@ def replay_script(ctx, txt, cexe=None, mexe=None):
     lines = [l for l in body.split("\n") if l.strip()]
     if cexe is None:
         os.makedirs(os.path.join(vlib.BUILD, "ocaml", PID), exist_ok=True)
-        cexe = vlib.build_harness("vdrv_clip", ["vdrv_clip.c"], wraps=WRAPS, client=True)
+        cexe = vlib.build_harness("vdrv_clip", ["vdrv_clip.c"], wraps=WRAPS, client=True, extra_cflags=clip_cflags())
         src, dst = os.path.join(vlib.VERIF, "build", "ocaml", PID), os.path.join(vlib.BUILD, "ocaml", PID)
         if os.path.abspath(src) != os.path.abspath(dst):
             for fn in ("model.ml", "model.mli"):
